@@ -842,4 +842,639 @@ Proof.
   split; intros [e [H1 H2]]; exists e; split; auto.
 Qed.
 
+
+(* ------------------------------------------------------------------ *)
+(* P3: every pass is a chain of steps *)
+Lemma app_cons_assoc {A : Type} (P : list A) x l : (P ++ [x]) ++ l = P ++ x :: l.
+Proof. rewrite <- app_assoc. reflexivity. Qed.
+Lemma rev_cons_app {A : Type} (x : A) out l : rev (x :: out) ++ l = rev out ++ x :: l.
+Proof. cbn [rev]. apply app_cons_assoc. Qed.
+Lemma lasto_rev out : lasto (rev out) = hd_error out.
+Proof. unfold lasto. rewrite rev_involutive. reflexivity. Qed.
+Lemma lasto_snoc P x : lasto (P ++ [x]) = Some x.
+Proof. unfold lasto. rewrite rev_app_distr. reflexivity. Qed.
+Lemma lasto_nil : lasto [] = None.
+Proof. reflexivity. Qed.
+Lemma brace_ctx_of ctx : brace_ctx (sctx_of ctx) = is_brace ctx.
+Proof. destruct ctx as [[| |]|]; reflexivity. Qed.
+Lemma sctx_of_not_macro ctx : sctx_of ctx <> CMacro.
+Proof. destruct ctx; discriminate. Qed.
+Lemma macro_def_pos_rev out : macro_def_pos (rev out) = macro_rules_head out.
+Proof. unfold macro_def_pos. rewrite rev_involutive. reflexivity. Qed.
+
+Lemma Eq_step_then c a b e : Step c a b -> Equiv c b e -> Equiv c a e.
+Proof. intros H1 H2. eapply Eq_trans; [apply Eq_step; exact H1|exact H2]. Qed.
+Lemma Eq_pets_then c a b e : Step c b a -> Equiv c b e -> Equiv c a e.
+Proof. intros H1 H2. eapply Eq_trans; [apply Eq_sym, Eq_step; exact H1|exact H2]. Qed.
+
+(* glue *)
+Lemma glue_equiv c seq : forall P, Equiv c (P ++ seq) (P ++ glue seq).
+Proof.
+  induction seq as [|x|x y l IH1 IH2] using list_ind2; intros P.
+  - apply Eq_refl.
+  - destruct x; apply Eq_refl.
+  - destruct x as [a|d its].
+    + destruct y as [b|d its].
+      * rewrite glue_eq. destruct (glue_pair a b) eqn:Hg.
+        -- eapply Eq_step_then; [apply S_glue; exact Hg|].
+           rewrite <- (app_cons_assoc P (Tok (a ++ b)) l), <- (app_cons_assoc P (Tok (a ++ b)) (glue l)). apply IH1.
+        -- rewrite <- (app_cons_assoc P (Tok a)), <- (app_cons_assoc P (Tok a) (glue _)). apply IH2.
+      * change (glue (Tok a :: Grp d its :: l)) with (Tok a :: glue (Grp d its :: l)).
+        rewrite <- (app_cons_assoc P (Tok a)), <- (app_cons_assoc P (Tok a) (glue _)). apply IH2.
+    + change (glue (Grp d its :: y :: l)) with (Grp d its :: glue (y :: l)).
+      rewrite <- (app_cons_assoc P (Grp d its)), <- (app_cons_assoc P (Grp d its) (glue _)). apply IH2.
+Qed.
+
+(* rewrite_loop *)
+Lemma rewrite_loop_equiv ctx seq : forall out,
+  Equiv (sctx_of ctx) (rev out ++ seq) (rewrite_loop ctx out seq).
+Proof.
+  induction seq as [seq IH] using len_ind. intros out.
+  destruct seq as [|x rest]; [cbn [rewrite_loop]; rewrite app_nil_r; apply Eq_refl|].
+  cbn [rewrite_loop]. cbv zeta.
+  match goal with |- context [if ?c then rewrite_loop ctx out rest else _] => destruct c eqn:H1 end.
+  { apply andb_true_iff in H1. destruct H1 as [H1 H1b]. apply is_tok_true in H1. subst x.
+    eapply Eq_step_then; [|apply IH; cbn [length]; lia].
+    apply S_redundant_semi. rewrite lasto_rev, brace_ctx_of.
+    destruct out as [|p out']; [cbn [rev hd_error] in *; exact H1b|].
+    cbn [hd_error] in *. rewrite orb_false_r in H1b. rewrite H1b.
+    destruct (rev (p :: out')) eqn:Hr; [apply (f_equal (@length item)) in Hr; rewrite rev_length in Hr; discriminate|reflexivity]. }
+  match goal with |- context [if ?c then rewrite_loop ctx out rest else _] => destruct c eqn:H2 end.
+  { apply andb_true_iff in H2. destruct H2 as [H2 H2b]. apply is_tok_true in H2. subst x.
+    eapply Eq_step_then; [|apply IH; cbn [length]; lia].
+    apply S_empty_where. destruct rest as [|y rest']; [reflexivity|].
+    cbn [hd_error] in H2b. unfold ends_where. rewrite <- H2b.
+    destruct (is_grp y DBrace), (is_tok y s_semi), (is_tok y s_eq); reflexivity. }
+  match goal with |- context [if ?c then rewrite_loop ctx out rest else _] => destruct c eqn:H3 end.
+  { apply andb_true_iff in H3. destruct H3 as [H3 H3d]. apply andb_true_iff in H3. destruct H3 as [H3 H3c].
+    apply andb_true_iff in H3. destruct H3 as [H3 H3b]. apply is_tok_true in H3. subst x.
+    eapply Eq_step_then; [|apply IH; cbn [length]; lia].
+    apply S_empty_bounds.
+    - rewrite lasto_rev. exact H3b.
+    - destruct rest; exact H3c.
+    - rewrite brace_ctx_of. apply negb_true_iff in H3d. exact H3d. }
+  match goal with |- context [if ?c then rewrite_loop ctx (Tok s_abiC :: x :: out) rest else _] => destruct c eqn:H4 end.
+  { apply andb_true_iff in H4. destruct H4 as [H4 H4c]. apply andb_true_iff in H4. destruct H4 as [H4 H4b].
+    apply is_tok_true in H4. subst x.
+    eapply Eq_step_then.
+    { apply S_extern_abi. destruct rest as [|y rest']; [reflexivity|].
+      cbn [hd_error is_tok_o] in *. rewrite H4b. destruct y; exact H4c. }
+    rewrite <- !rev_cons_app. apply IH. cbn [length]. lia. }
+  assert (Hdef : Equiv (sctx_of ctx) (rev out ++ x :: rest) (rewrite_loop ctx (x :: out) rest)).
+  { rewrite <- rev_cons_app. apply IH. cbn [length]. lia. }
+  destruct rest as [|[t|d its] rest']; try exact Hdef.
+  destruct d; try exact Hdef.
+  destruct its as [|a [|b [|c0 more]]]; try exact Hdef.
+  - destruct (is_tok x s_pub && is_tok a s_in && vis_kw b) eqn:H5; [|exact Hdef].
+    apply andb_true_iff in H5. destruct H5 as [H5 H5c]. apply andb_true_iff in H5. destruct H5 as [H5 H5b].
+    apply is_tok_true in H5. apply is_tok_true in H5b. subst x a.
+    eapply Eq_step_then; [apply S_vis_in; exact H5c|].
+    rewrite <- !rev_cons_app. apply IH. cbn [length]. lia.
+  - destruct (is_tok x s_pub && is_tok a s_in && is_tok b s_coloncolon) eqn:H5; [|exact Hdef].
+    apply andb_true_iff in H5. destruct H5 as [H5 H5c]. apply andb_true_iff in H5. destruct H5 as [H5 H5b].
+    apply is_tok_true in H5. apply is_tok_true in H5b. apply is_tok_true in H5c. subst x a b.
+    eapply Eq_step_then; [apply S_vis_root|].
+    rewrite <- !rev_cons_app. apply IH. cbn [length]. lia.
+Qed.
+
+(* inside a brace group: the optional `;` of a final return / break / continue (or, in the body of a macro
+   definition, the optional final `;`) *)
+Lemma tail_semi_equiv c P items Q : c <> CMacro -> drops_tail_semi items = true ->
+  Equiv c (P ++ Grp DBrace items :: Q) (P ++ Grp DBrace (removelast items) :: Q).
+Proof.
+  intros Hc Hd. pose proof (drops_tail_semi_inv _ Hd) as Hi.
+  destruct (macro_def_pos P) eqn:Hm.
+  - apply Eq_macro_body; [exact Hc|exact Hm|]. rewrite Hi at 1.
+    apply Eq_step. pose proof (S_macro_sep CMacro (removelast items) [] eq_refl eq_refl) as HS.
+    rewrite app_nil_r in HS. exact HS.
+  - apply Eq_nest; [exact Hc|exact Hm|]. rewrite Hi at 1.
+    apply Eq_step. apply S_diverging_semi; [reflexivity|]. rewrite <- Hi. exact Hd.
+Qed.
+Lemma block_tails_equiv c seq : c <> CMacro -> forall P, Equiv c (P ++ seq) (P ++ block_tails seq).
+Proof.
+  intros Hc. unfold block_tails. induction seq as [|x r IH]; intros P; [apply Eq_refl|].
+  cbn [map].
+  eapply Eq_trans with (P ++ block_tail x :: r).
+  - destruct x as [t|d items]; [apply Eq_refl|]. destruct d; try apply Eq_refl.
+    cbn [block_tail]. destruct (drops_tail_semi items) eqn:Hd; [|apply Eq_refl].
+    apply tail_semi_equiv; assumption.
+  - rewrite <- (app_cons_assoc P (block_tail x) r), <- (app_cons_assoc P (block_tail x) (map _ r)). apply IH.
+Qed.
+
+
+Lemma seb_brace x : single_expr_block x = true -> exists body, x = Grp DBrace body.
+Proof.
+  destruct x as [t|d its]; [discriminate|]. destruct d; try discriminate. intros _. eexists. reflexivity.
+Qed.
+(* the unwrap loop, given the one-level step at this position *)
+Lemma unwrap_equiv c A Q :
+  (forall body, single_expr_block (Grp DBrace body) = true -> Equiv c (A ++ Grp DBrace body :: Q) (A ++ body ++ Q)) ->
+  forall x, Equiv c (A ++ x :: Q) (A ++ unwrap x ++ Q).
+Proof.
+  intros Hstep x. induction x as [s|d its IH] using item_ind'.
+  - rewrite unwrap_eq. destruct (single_expr_block (Tok s)); apply Eq_refl.
+  - rewrite unwrap_eq. destruct (single_expr_block (Grp d its)) eqn:Hs; [|apply Eq_refl].
+    destruct (seb_brace _ Hs) as [body Hb]. inversion Hb; subst d body.
+    eapply Eq_trans; [apply Hstep; exact Hs|].
+    destruct its as [|y [|z its]]; try apply Eq_refl.
+    inversion IH as [|? ? Hy _]; subst. exact Hy.
+Qed.
+
+Lemma arms_equiv c seq : forall P, Equiv c (P ++ seq) (P ++ arms (brace_ctx c) seq).
+Proof.
+  induction seq as [seq IH] using len_ind. intros P.
+  destruct seq as [|x [|nxt rest2]]; [apply Eq_refl|apply Eq_refl|].
+  rewrite arms_eq.
+  destruct (is_tok x s_fatarrow && brace_ctx c && is_grp nxt DBrace) eqn:Hc; cbv zeta.
+  2:{ rewrite <- (app_cons_assoc P x), <- (app_cons_assoc P x (arms _ _)). apply IH. cbn [length]. lia. }
+  apply andb_true_iff in Hc. destruct Hc as [Hc Hg]. apply andb_true_iff in Hc. destruct Hc as [Hx Hb].
+  apply is_tok_true in Hx. subst x. destruct (is_grp_true _ _ Hg) as [b ->].
+  assert (Hun : forall Q, Equiv c (P ++ Tok s_fatarrow :: Grp DBrace b :: Q) (P ++ Tok s_fatarrow :: unwrap (Grp DBrace b) ++ Q)).
+  { intros Q. rewrite <- (app_cons_assoc P (Tok s_fatarrow)), <- (app_cons_assoc P (Tok s_fatarrow) (unwrap _ ++ Q)).
+    apply unwrap_equiv. intros body Hs. rewrite (app_cons_assoc P (Tok s_fatarrow)), (app_cons_assoc P (Tok s_fatarrow) (body ++ Q)). apply Eq_step. apply S_arm_block; assumption. }
+  assert (Hfa : forall Q, existsb is_fatarrow ((P ++ [Tok s_fatarrow]) ++ Q) = true).
+  { intros Q. rewrite !existsb_app. cbn [existsb]. unfold is_fatarrow at 2. rewrite is_tok_refl.
+    rewrite orb_true_r. reflexivity. }
+  assert (Hcomma : forall Q, Equiv c (P ++ Tok s_fatarrow :: Grp DBrace b :: Tok s_comma :: Q) (P ++ Tok s_fatarrow :: Grp DBrace b :: Q)).
+  { intros Q. rewrite <- (app_cons_assoc P (Tok s_fatarrow)), <- (app_cons_assoc P (Tok s_fatarrow) (_ :: Q)).
+    apply Eq_step. apply S_arm_comma; [exact Hb|apply Hfa]. }
+  assert (Hgo : forall r3, (length r3 < length (Tok s_fatarrow :: Grp DBrace b :: rest2))%nat -> r3 <> [] ->
+     Equiv c (P ++ Tok s_fatarrow :: Grp DBrace b :: Tok s_comma :: r3)
+             (P ++ Tok s_fatarrow :: unwrap (Grp DBrace b) ++ [Tok s_comma] ++ arms (brace_ctx c) r3)).
+  { intros r3 Hl Hne. eapply Eq_trans; [apply Hun|].
+    assert (Ha : forall l, P ++ Tok s_fatarrow :: unwrap (Grp DBrace b) ++ Tok s_comma :: l
+                 = (P ++ Tok s_fatarrow :: unwrap (Grp DBrace b) ++ [Tok s_comma]) ++ l).
+    { intros l. rewrite <- app_assoc. cbn [app]. rewrite <- app_assoc. reflexivity. }
+    cbn [app]. rewrite (Ha r3), (Ha (arms (brace_ctx c) r3)). apply IH. exact Hl. }
+  destruct rest2 as [|a r3].
+  - cbn [arms app]. rewrite app_nil_r. rewrite <- (app_nil_r (unwrap _)). apply Hun.
+  - destruct (is_tok a s_comma) eqn:Ha.
+    + apply is_tok_true in Ha. subst a. destruct r3 as [|z r3].
+      * cbn [arms app]. rewrite app_nil_r. eapply Eq_trans; [apply Hcomma|].
+        rewrite <- (app_nil_r (unwrap _)). apply Hun.
+      * apply Hgo; [cbn [length]; lia|discriminate].
+    + eapply Eq_trans; [apply Eq_sym, Hcomma|]. apply Hgo; [cbn [length]; lia|discriminate].
+Qed.
+
+(* closures *)
+Lemma find_close_params l : forall acc p after,
+  find_close l acc = Some (p, after) -> closure_params (rev acc) = true -> closure_params (rev p) = true.
+Proof.
+  induction l as [|y l IH]; intros acc p after; cbn [find_close]; [discriminate|].
+  destruct (is_tok y s_pipe) eqn:Hy.
+  - intros H. inversion H; subst. auto.
+  - destruct (is_tok y s_semi || is_tok y s_fatarrow) eqn:Hs; [discriminate|].
+    intros H Hacc. apply (IH _ _ _ H). unfold closure_params in *. cbn [rev]. rewrite existsb_app.
+    apply negb_true_iff in Hacc. rewrite Hacc. cbn [existsb]. rewrite Hy.
+    apply orb_false_iff in Hs. destruct Hs as [Hs1 Hs2]. rewrite Hs1, Hs2. reflexivity.
+Qed.
+Lemma closure_params_tail y p : closure_params (rev (y :: p)) = true -> closure_params (rev p) = true.
+Proof.
+  unfold closure_params. cbn [rev]. rewrite existsb_app. intros H. apply negb_true_iff in H.
+  apply orb_false_iff in H. destruct H as [H _]. rewrite H. reflexivity.
+Qed.
+
+Lemma closures_equiv c fuel : forall res l, Equiv c (rev res ++ l) (closures fuel res l).
+Proof.
+  induction fuel as [|f IH]; intros res l; cbn [closures]; [apply Eq_refl|].
+  destruct l as [|x rest]; [rewrite app_nil_r; apply Eq_refl|].
+  assert (Hdef : forall l', Equiv c (rev res ++ x :: l') (closures f (x :: res) l')).
+  { intros l'. rewrite <- rev_cons_app. apply IH. }
+  destruct (is_tok x s_pipe && starts_expr (hd_error res)) eqn:Hc; [|apply Hdef].
+  apply andb_true_iff in Hc. destruct Hc as [Hx Hse]. apply is_tok_true in Hx. subst x.
+  destruct (find_close rest []) as [[params_rev after]|] eqn:Hf; [|apply Hdef].
+  pose proof (find_close_params _ _ _ _ Hf eq_refl) as Hcp.
+  apply find_close_spec in Hf. cbn [rev app] in Hf. subst rest.
+  set (p' := match params_rev with y :: p' => if is_tok y s_comma then p' else params_rev | [] => [] end).
+  assert (Hp : Equiv c (rev res ++ Tok s_pipe :: rev params_rev ++ Tok s_pipe :: after)
+                       (rev res ++ Tok s_pipe :: rev p' ++ Tok s_pipe :: after)
+               /\ closure_params (rev p') = true).
+  { subst p'. destruct params_rev as [|y q]; [split; [apply Eq_refl|reflexivity]|].
+    destruct (is_tok y s_comma) eqn:Hy; [|split; [apply Eq_refl|exact Hcp]].
+    apply is_tok_true in Hy. subst y. split; [|apply closure_params_tail in Hcp; exact Hcp].
+    cbn [rev]. rewrite <- app_assoc. cbn [app]. apply Eq_step. apply S_closure_comma.
+    - rewrite lasto_rev. exact Hse.
+    - apply closure_params_tail in Hcp. exact Hcp. }
+  destruct Hp as [Hp Hcp']. clearbody p'.
+  eapply Eq_trans; [exact Hp|].
+  destruct after as [|b after']; [apply Hdef|].
+  destruct (single_expr_block b && negb (existsb (fun t => is_tok t s_fatarrow) (Tok s_pipe :: rev p'))) eqn:Hb; [|apply Hdef].
+  apply andb_true_iff in Hb. destruct Hb as [Hb _].
+  eapply Eq_trans; [|apply IH].
+  rewrite !rev_app_distr, rev_involutive. cbn [rev]. rewrite !rev_app_distr. cbn [rev app].
+  rewrite <- !app_assoc. cbn [app].
+  assert (Ha : forall l, rev res ++ Tok s_pipe :: rev p' ++ Tok s_pipe :: l = (rev res ++ Tok s_pipe :: rev p' ++ [Tok s_pipe]) ++ l).
+  { intros l. rewrite <- app_assoc. cbn [app]. rewrite <- app_assoc. reflexivity. }
+  rewrite (Ha (b :: after')), (Ha (unwrap b ++ after')). apply unwrap_equiv. intros body Hs.
+  rewrite <- (Ha (Grp DBrace body :: after')), <- (Ha (body ++ after')).
+  apply Eq_step. apply S_closure_block; [rewrite lasto_rev; exact Hse|exact Hcp'|exact Hs].
+Qed.
+
+Lemma lead_pipes_equiv c l : forall final, Equiv c (rev final ++ l) (lead_pipes (brace_ctx c) final l).
+Proof.
+  induction l as [|x rest IH]; intros final; cbn [lead_pipes]; [rewrite app_nil_r; apply Eq_refl|].
+  destruct (is_tok x s_pipe && brace_ctx c && arm_start final && arrow_before_comma rest) eqn:Hc.
+  - apply andb_true_iff in Hc. destruct Hc as [Hc H4]. apply andb_true_iff in Hc. destruct Hc as [Hc H3].
+    apply andb_true_iff in Hc. destruct Hc as [H1 H2]. apply is_tok_true in H1. subst x.
+    eapply Eq_step_then; [|apply IH]. apply S_leading_pipe; [exact H2|rewrite rev_involutive; exact H3|exact H4].
+  - rewrite <- rev_cons_app. apply IH.
+Qed.
+
+Lemma existsb_fatarrow_drop P b Q :
+  existsb is_fatarrow (P ++ Grp DBrace b :: Tok s_comma :: Q) = existsb is_fatarrow (P ++ Grp DBrace b :: Q).
+Proof. rewrite !existsb_app. reflexivity. Qed.
+Lemma drop_arm_commas_equiv c l : brace_ctx c = true -> forall P prev,
+  (is_grp_o prev DBrace = true -> lasto P = prev) ->
+  existsb is_fatarrow (P ++ l) = true ->
+  Equiv c (P ++ l) (P ++ drop_arm_commas prev l).
+Proof.
+  intros Hb. induction l as [|x r IH]; intros P prev Hprev Hex; cbn [drop_arm_commas]; [apply Eq_refl|].
+  destruct (is_tok x s_comma && is_grp_o prev DBrace) eqn:Hc.
+  - apply andb_true_iff in Hc. destruct Hc as [Hx Hg]. apply is_tok_true in Hx. subst x.
+    specialize (Hprev Hg). destruct prev as [p|]; [|discriminate]. cbn [is_grp_o] in Hg.
+    destruct (is_grp_true _ _ Hg) as [b ->].
+    assert (HP : exists P0, P = P0 ++ [Grp DBrace b]).
+    { unfold lasto in Hprev. destruct (rev P) as [|z rp] eqn:Hr; [discriminate|].
+      cbn [hd_error] in Hprev. inversion Hprev; subst z. exists (rev rp). apply rev_cons_inv. exact Hr. }
+    destruct HP as [P0 ->].
+    rewrite (app_cons_assoc P0 (Grp DBrace b) (Tok s_comma :: r)) in *.
+    eapply Eq_step_then.
+    { apply S_arm_comma; [exact Hb|]. rewrite existsb_app in *. cbn [existsb] in Hex. exact Hex. }
+    rewrite <- (app_cons_assoc P0 (Grp DBrace b) r). apply IH.
+    + intros H. discriminate.
+    + rewrite (app_cons_assoc P0 (Grp DBrace b) r). rewrite <- existsb_fatarrow_drop. exact Hex.
+  - rewrite <- (app_cons_assoc P x), <- (app_cons_assoc P x (drop_arm_commas _ _)). apply IH.
+    + intros _. apply lasto_snoc.
+    + rewrite app_cons_assoc. exact Hex.
+Qed.
+
+Lemma arms_and_closures_equiv ctx seq :
+  Equiv (sctx_of ctx) seq (arms_and_closures ctx seq).
+Proof.
+  unfold arms_and_closures. rewrite <- brace_ctx_of.
+  set (c := sctx_of ctx).
+  assert (H : Equiv c seq (lead_pipes (brace_ctx c) [] (closures_run (arms (brace_ctx c) seq)))).
+  { eapply Eq_trans; [apply (arms_equiv c seq [])|]. cbn [app].
+    eapply Eq_trans; [apply (closures_equiv c (S (length (arms (brace_ctx c) seq))) [])|].
+    apply (lead_pipes_equiv c _ []). }
+  destruct (brace_ctx c) eqn:Hb; [|exact H]. cbn [andb].
+  match goal with |- context [if ?e then _ else _] => destruct e eqn:He end; [|exact H].
+  eapply Eq_trans; [exact H|].
+  apply (drop_arm_commas_equiv c _ Hb [] None); [discriminate|exact He].
+Qed.
+
+
+Lemma trim_group_equiv c P x Q : c <> CMacro ->
+  Equiv c (P ++ x :: Q) (P ++ trim_group (lasto P) x :: Q).
+Proof.
+  intros Hc. destruct x as [t|d items]; [apply Eq_refl|]. cbn [trim_group].
+  set (items1 := if last_is items s_comma then _ else items).
+  assert (H1 : Equiv c (P ++ Grp d items :: Q) (P ++ Grp d items1 :: Q)).
+  { subst items1. destruct (last_is items s_comma) eqn:Hl; [|apply Eq_refl].
+    match goal with |- context [if ?e then removelast items else items] => destruct e eqn:He end; [|apply Eq_refl].
+    pose proof (last_is_inv _ _ Hl) as Hi. rewrite Hi at 1. apply Eq_step. apply S_trailing_sep.
+    rewrite <- Hi. exact He. }
+  clearbody items1. eapply Eq_trans; [exact H1|].
+  destruct d; try apply Eq_refl.
+  destruct (drops_tail_semi items1) eqn:Hd; [|apply Eq_refl].
+  apply tail_semi_equiv; assumption.
+Qed.
+Lemma trim_groups_equiv c seq : c <> CMacro -> forall P, Equiv c (P ++ seq) (P ++ trim_groups (lasto P) seq).
+Proof.
+  intros Hc. induction seq as [|x r IH]; intros P; [apply Eq_refl|].
+  cbn [trim_groups]. cbv zeta.
+  eapply Eq_trans; [apply trim_group_equiv; exact Hc|].
+  set (x' := trim_group (lasto P) x).
+  rewrite <- (app_cons_assoc P x' r), <- (app_cons_assoc P x' (trim_groups _ r)).
+  rewrite <- (lasto_snoc P x'). apply IH.
+Qed.
+
+Lemma wstate_snoc P x : wstate (P ++ [x]) = wstep (wstate P) x.
+Proof. unfold wstate. rewrite fold_left_app. reflexivity. Qed.
+Lemma wstep_comma w a : wstep (w, a) (Tok s_comma) = (w, a).
+Proof.
+  unfold wstep.
+  change (is_tok (Tok s_comma) s_where) with false.
+  change (is_tok (Tok s_comma) s_lt) with false.
+  change (is_tok (Tok s_comma) s_gt) with false.
+  change (ends_where (Tok s_comma)) with false.
+  cbn [orb andb]. rewrite ?andb_false_r. cbn [orb andb]. rewrite ?andb_false_r. reflexivity.
+Qed.
+Lemma where_commas_equiv c seq : forall P w a, wstate P = (w, a) ->
+  Equiv c (P ++ seq) (P ++ where_commas w a seq).
+Proof.
+  induction seq as [|x r IH]; intros P w a Hst; [apply Eq_refl|].
+  cbn [where_commas]. cbv zeta.
+  destruct (is_tok x s_comma) eqn:Hx.
+  - apply is_tok_true in Hx. subst x.
+    change (is_tok (Tok s_comma) s_where) with false.
+    change (is_tok (Tok s_comma) s_lt) with false.
+    change (is_tok (Tok s_comma) s_gt) with false.
+    change (is_tok (Tok s_comma) s_comma) with true.
+    change (ends_where (Tok s_comma)) with false.
+    cbn [orb andb]. rewrite !andb_false_r. cbn [orb andb].
+    destruct (is_tok_o (hd_error r) s_gt) eqn:Hn.
+    + apply is_tok_o_true in Hn. destruct r as [|y r']; [discriminate|]. cbn [hd_error] in Hn. inversion Hn; subst y.
+      eapply Eq_step_then; [apply S_generic_comma|]. apply IH. exact Hst.
+    + destruct (w && Nat.eqb a 0 && match hd_error r with None => true | Some y => ends_where y end) eqn:Hw.
+      * apply andb_true_iff in Hw. destruct Hw as [Hw Hn2].
+        eapply Eq_step_then; [|apply IH; exact Hst].
+        apply S_where_comma; [rewrite Hst; exact Hw|destruct r; exact Hn2].
+      * rewrite <- (app_cons_assoc P (Tok s_comma) r), <- (app_cons_assoc P (Tok s_comma) (where_commas _ _ r)).
+        apply IH. rewrite wstate_snoc, Hst. apply wstep_comma.
+  - cbn [andb].
+    rewrite <- (app_cons_assoc P x r).
+    match goal with |- Equiv c _ (P ++ x :: where_commas ?w2 ?a3 r) =>
+      rewrite <- (app_cons_assoc P x (where_commas w2 a3 r)); apply IH end.
+    rewrite wstate_snoc, Hst. reflexivity.
+Qed.
+Lemma trailing_seps_equiv c seq : c <> CMacro -> Equiv c seq (trailing_seps seq).
+Proof.
+  intros Hc. unfold trailing_seps.
+  eapply Eq_trans; [apply (trim_groups_equiv c seq Hc [])|].
+  apply (where_commas_equiv c _ [] false O). reflexivity.
+Qed.
+Lemma rewrite_equiv o ctx seq : Equiv (sctx_of ctx) seq (rewrite o ctx seq).
+Proof.
+  unfold rewrite.
+  assert (H : Equiv (sctx_of ctx) seq (block_tails (rewrite_loop ctx [] seq))).
+  { eapply Eq_trans; [apply (rewrite_loop_equiv ctx seq [])|].
+    apply (block_tails_equiv _ _ (sctx_of_not_macro ctx) []). }
+  eapply Eq_trans; [|apply trailing_seps_equiv; apply sctx_of_not_macro].
+  destruct (o_macro_def o); [exact H|].
+  eapply Eq_trans; [exact H|apply arms_and_closures_equiv].
+Qed.
+
+
+(* macro_rules bodies *)
+Definition mokE (p : mitem) : Prop := forall d s, fst p = Grp d s -> Equiv (CIn DBrace) s (snd p).
+Definition sep_inv (P : list item) : Prop :=
+  match lasto P with None => true | Some p => is_tok p s_semi end = true.
+
+Lemma glue2_equiv l : forall P,
+  Equiv CMacro (P ++ map fst l) (P ++ map fst (glue2 l)) /\ (Forall mokE l -> Forall mokE (glue2 l)).
+Proof.
+  induction l as [|x|x y l IH1 IH2] using list_ind2; intros P.
+  - split; [apply Eq_refl|auto].
+  - destruct x as [[a|d its] n]; (split; [apply Eq_refl|auto]).
+  - destruct x as [[a|d its] na].
+    + destruct y as [[b|d its] nb].
+      * rewrite glue2_eq. destruct (glue_pair a b) eqn:Hg.
+        -- split.
+           ++ cbn [map fst]. eapply Eq_step_then; [apply S_glue; exact Hg|].
+              rewrite <- (app_cons_assoc P (Tok (a ++ b)) (map fst l)).
+              rewrite <- (app_cons_assoc P (Tok (a ++ b)) (map fst (glue2 l))). apply IH1.
+           ++ intros HF. inversion HF as [|? ? _ HF1]; subst. inversion HF1 as [|? ? _ HF2]; subst.
+              constructor; [intros d s Hd; discriminate|apply (proj2 (IH1 P)); exact HF2].
+        -- split.
+           ++ cbn [map fst]. rewrite <- (app_cons_assoc P (Tok a)).
+              rewrite <- (app_cons_assoc P (Tok a) (map fst (glue2 _))). apply (proj1 (IH2 (P ++ [Tok a]))).
+           ++ intros HF. inversion HF as [|? ? H0 HF1]; subst. constructor; [exact H0|apply (proj2 (IH2 P)); exact HF1].
+      * change (glue2 ((Tok a, na) :: (Grp d its, nb) :: l)) with ((Tok a, na) :: glue2 ((Grp d its, nb) :: l)).
+        split.
+        -- cbn [map fst]. rewrite <- (app_cons_assoc P (Tok a)).
+           rewrite <- (app_cons_assoc P (Tok a) (map fst (glue2 _))). apply (proj1 (IH2 (P ++ [Tok a]))).
+        -- intros HF. inversion HF as [|? ? H0 HF1]; subst. constructor; [exact H0|apply (proj2 (IH2 P)); exact HF1].
+    + change (glue2 ((Grp d its, na) :: y :: l)) with ((Grp d its, na) :: glue2 (y :: l)).
+      split.
+      * cbn [map fst]. rewrite <- (app_cons_assoc P (Grp d its)).
+        rewrite <- (app_cons_assoc P (Grp d its) (map fst (glue2 _))). apply (proj1 (IH2 (P ++ [Grp d its]))).
+      * intros HF. inversion HF as [|? ? H0 HF1]; subst. constructor; [exact H0|apply (proj2 (IH2 P)); exact HF1].
+Qed.
+
+Lemma sep_inv_snoc_semi P : sep_inv (P ++ [Tok s_semi]).
+Proof. unfold sep_inv. rewrite lasto_snoc. reflexivity. Qed.
+Lemma sep_inv_cases P : sep_inv P -> P = [] \/ exists P0, P = P0 ++ [Tok s_semi].
+Proof.
+  unfold sep_inv, lasto. destruct (rev P) as [|z rp] eqn:Hr; intros H.
+  - left. destruct P as [|p P]; [reflexivity|]. apply (f_equal (@length item)) in Hr. rewrite rev_length in Hr. discriminate.
+  - right. cbn [hd_error] in H. apply is_tok_true in H. subst z. exists (rev rp). apply rev_cons_inv. exact Hr.
+Qed.
+
+(* one arm together with the `;` that ends it *)
+Lemma macro_arm_sep arm P L : sep_inv P -> Forall mokE arm ->
+  Equiv CMacro (P ++ map fst arm ++ Tok s_semi :: L) (P ++ macro_arm arm ++ L) /\ sep_inv (P ++ macro_arm arm).
+Proof.
+  intros HP HF.
+  assert (Hdef : arm <> [] ->
+     Equiv CMacro (P ++ map fst arm ++ Tok s_semi :: L) (P ++ (map fst arm ++ [Tok s_semi]) ++ L)
+     /\ sep_inv (P ++ map fst arm ++ [Tok s_semi])).
+  { intros _. split.
+    - rewrite <- (app_assoc (map fst arm) [Tok s_semi] L). apply Eq_refl.
+    - rewrite app_assoc. apply sep_inv_snoc_semi. }
+  unfold macro_arm.
+  destruct arm as [|[x nx] arm].
+  { cbn [map app]. rewrite app_nil_r. split; [|exact HP].
+    destruct (sep_inv_cases P HP) as [->|[P0 ->]].
+    - apply Eq_step. apply S_macro_lead_sep. reflexivity.
+    - rewrite (app_cons_assoc P0 (Tok s_semi) (Tok s_semi :: L)), (app_cons_assoc P0 (Tok s_semi) L).
+      apply Eq_step. apply S_macro_sep; reflexivity. }
+  specialize (Hdef ltac:(discriminate)).
+  destruct x as [t|d1 m]; [exact Hdef|].
+  destruct arm as [|[a na] arm]; [exact Hdef|].
+  destruct arm as [|[y ny] arm]; [exact Hdef|].
+  destruct arm as [|z arm]; [|destruct y; exact Hdef].
+  destruct y as [t|d2 body]; [exact Hdef|].
+  destruct (is_tok a s_fatarrow) eqn:Ha; [|exact Hdef].
+  apply is_tok_true in Ha. subst a.
+  inversion HF as [|? ? _ HF1]; subst. inversion HF1 as [|? ? _ HF2]; subst. inversion HF2 as [|? ? H3 _]; subst.
+  pose proof (H3 d2 body eq_refl) as Hb. cbn [snd] in Hb.
+  cbn [map fst app]. split.
+  - eapply Eq_trans.
+    + apply (Eq_macro_arm CMacro P d1 m d2 body ny (Tok s_semi :: L) eq_refl HP eq_refl Hb).
+    + apply Eq_step. apply S_macro_arm_delims; [reflexivity|exact HP|reflexivity].
+  - change (P ++ [Grp DParen m; Tok s_fatarrow; Grp DBrace ny; Tok s_semi])
+      with (P ++ [Grp DParen m; Tok s_fatarrow; Grp DBrace ny] ++ [Tok s_semi]).
+    rewrite app_assoc. apply sep_inv_snoc_semi.
+Qed.
+Lemma macro_arm_end arm P : sep_inv P -> Forall mokE arm ->
+  Equiv CMacro (P ++ map fst arm) (P ++ macro_arm arm).
+Proof.
+  intros HP HF.
+  eapply Eq_trans with (P ++ map fst arm ++ [Tok s_semi]).
+  - apply Eq_sym. rewrite app_assoc. rewrite <- (app_nil_r (P ++ map fst arm)) at 2.
+    apply Eq_step. apply S_macro_sep; reflexivity.
+  - rewrite <- (app_nil_r (macro_arm arm)). apply (macro_arm_sep arm P [] HP HF).
+Qed.
+Lemma macro_arms_equiv l : forall cur P, sep_inv P -> Forall mokE cur -> Forall mokE l ->
+  Equiv CMacro (P ++ map fst (rev cur) ++ map fst l)
+               (P ++ concat (map macro_arm (split_on (fun x : mitem => is_tok (fst x) s_semi) cur l))).
+Proof.
+  induction l as [|x l IH]; intros cur P HP Hc Hl; cbn [split_on].
+  - cbn [map concat]. rewrite !app_nil_r. apply macro_arm_end; [exact HP|apply Forall_rev; exact Hc].
+  - inversion Hl as [|? ? Hx Hl']; subst.
+    destruct (is_tok (fst x) s_semi) eqn:Hs.
+    + apply is_tok_true in Hs. cbn [map concat]. rewrite Hs.
+      destruct (macro_arm_sep (rev cur) P (map fst l) HP (Forall_rev Hc)) as [H1 H2].
+      eapply Eq_trans; [exact H1|].
+      rewrite !app_assoc. specialize (IH [] (P ++ macro_arm (rev cur)) H2 (Forall_nil _) Hl').
+      cbn [rev map app] in IH. exact IH.
+    + specialize (IH (x :: cur) P HP (Forall_cons _ Hx Hc) Hl').
+      cbn [rev] in IH. rewrite map_app in IH. cbn [map] in IH. rewrite <- app_assoc in IH. exact IH.
+Qed.
+Lemma macro_def_equiv items : Forall mokE items -> Equiv CMacro (map fst items) (macro_def items).
+Proof.
+  intros HF. unfold macro_def.
+  destruct (glue2_equiv items []) as [Hg HgF]. specialize (HgF HF). cbn [app] in Hg.
+  eapply Eq_trans; [exact Hg|].
+  apply (macro_arms_equiv (glue2 items) [] [] eq_refl (Forall_nil _) HgF).
+Qed.
+
+Lemma collapse_equiv c P Q : call_like (lasto P) = false ->
+  forall g, Equiv c (P ++ g :: Q) (P ++ collapse_parens g :: Q).
+Proof.
+  intros Hcl g. induction g as [s|d its IH] using item_ind'; [apply Eq_refl|].
+  destruct d; try apply Eq_refl.
+  destruct its as [|y its1]; [apply Eq_refl|].
+  destruct y as [t|d2 its2]; [apply Eq_refl|].
+  destruct d2; try apply Eq_refl.
+  destruct its1 as [|z its1]; [|apply Eq_refl].
+  inversion IH as [|? ? Hy _]; subst.
+  change (collapse_parens (Grp DParen [Grp DParen its2])) with (collapse_parens (Grp DParen its2)).
+  eapply Eq_step_then; [apply S_nested_parens; exact Hcl|exact Hy].
+Qed.
+
+Lemma macro_call_pos_rev out :
+  macro_call_pos (rev out) = is_tok_o (hd_error out) s_bang && match out with _ :: y :: _ => is_ident y | _ => false end.
+Proof.
+  unfold macro_call_pos. rewrite rev_involutive.
+  destruct out as [|b [|y out]]; cbn [hd_error is_tok_o]; try reflexivity.
+  rewrite andb_false_r. reflexivity.
+Qed.
+
+Section LoopE.
+Variable rec : opts -> option delim -> item -> list item.
+Definition PrecE (x : item) : Prop := forall o ctx, Equiv (sctx_of ctx) (contents x) (rec o ctx x).
+Definition PdeepE (x : item) : Prop := PrecE x /\ Forall PrecE (contents x).
+Definition skip_inv (skip : bool) (out : list item) : Prop :=
+  skip = true -> exists g out0, out = g :: out0 /\ macro_def_pos (rev out0) || macro_call_pos (rev out0) = true.
+
+Lemma norm_loop_equiv items : forall o ctx out skip,
+  Forall PdeepE items -> skip_inv skip out ->
+  Equiv (sctx_of ctx) (rev out ++ items) (norm_loop rec o ctx out skip items).
+Proof.
+  induction items as [items IH] using len_ind. intros o ctx out skip HF Hsk.
+  set (c := sctx_of ctx).
+  assert (Hnoskip : forall out', skip_inv false out') by (intros out' H; discriminate).
+  destruct items as [|x rest].
+  { cbn [norm_loop]. rewrite app_nil_r.
+    eapply Eq_trans; [apply (glue_equiv c (rev out) [])|]. apply rewrite_equiv. }
+  inversion HF as [|? ? Hx HF']; subst.
+  cbn [norm_loop].
+  destruct (skip && is_tok x s_semi) eqn:Hs.
+  { apply andb_true_iff in Hs. destruct Hs as [Hs1 Hs2]. apply is_tok_true in Hs2. subst x skip.
+    destruct (Hsk eq_refl) as [g [out0 [-> Hpos]]].
+    rewrite rev_cons_app. eapply Eq_step_then; [apply S_macro_semi; exact Hpos|].
+    rewrite <- rev_cons_app. apply IH; [cbn [length]; lia|exact HF'|exact Hsk]. }
+  clear Hs Hsk skip.
+  destruct x as [t|d sub].
+  - assert (Hdef : Equiv c (rev out ++ Tok t :: rest) (norm_loop rec o ctx (Tok t :: out) false rest)).
+    { rewrite <- rev_cons_app. apply IH; [cbn [length]; lia|exact HF'|apply Hnoskip]. }
+    destruct rest as [|y rest']; [exact Hdef|].
+    destruct (eqb_text t s_lt && is_tok y s_gt) eqn:Hlt; [|exact Hdef].
+    apply andb_true_iff in Hlt. destruct Hlt as [Ht Hy]. apply eqb_text_spec in Ht. subst t.
+    apply is_tok_true in Hy. subst y.
+    inversion HF' as [|? ? _ HF'']; subst.
+    assert (Hgen : forall out', Equiv c (rev out' ++ rest') (norm_loop rec o ctx out' false rest')).
+    { intros out'. apply IH; [cbn [length]; lia|exact HF''|apply Hnoskip]. }
+    destruct out as [|p out1].
+    { eapply Eq_step_then; [apply S_empty_generics|apply Hgen]. }
+    destruct (is_tok p s_coloncolon) eqn:Hp1.
+    { apply is_tok_true in Hp1. subst p. cbn [orb]. rewrite rev_cons_app.
+      eapply Eq_step_then; [apply S_empty_turbofish|apply Hgen]. }
+    destruct (is_tok p s_for) eqn:Hp2.
+    { apply is_tok_true in Hp2. subst p. cbn [orb]. rewrite rev_cons_app.
+      eapply Eq_step_then; [apply S_empty_binder|apply Hgen]. }
+    cbn [orb]. eapply Eq_step_then; [apply S_empty_generics|apply Hgen].
+  - destruct Hx as [Hx Hsub]. cbn [contents] in Hsub.
+    destruct (macro_rules_head out) eqn:Hm.
+    + set (sub2 := map (fun c0 => (c0, rec (set_macro_def o) (Some DBrace) c0)) sub).
+      assert (Hmd : Equiv CMacro sub (macro_def sub2)).
+      { assert (Hfst : map fst sub2 = sub).
+        { subst sub2. rewrite map_map. cbn [fst]. apply map_id. }
+        rewrite <- Hfst at 1. apply macro_def_equiv. subst sub2.
+        clear -Hsub. induction Hsub as [|c0 l Hc _ IHl]; [constructor|].
+        cbn [map]. constructor; [|exact IHl].
+        intros d s Hd. cbn [fst snd] in *. subst c0. apply (Hc (set_macro_def o) (Some DBrace)). }
+      eapply Eq_trans.
+      { apply (Eq_macro_body c (rev out) d sub (macro_def sub2) rest); [apply sctx_of_not_macro|rewrite macro_def_pos_rev; exact Hm|exact Hmd]. }
+      eapply Eq_step_then.
+      { apply (S_macro_delim c (rev out) d DBrace). rewrite macro_def_pos_rev, Hm. reflexivity. }
+      rewrite <- rev_cons_app. apply IH; [cbn [length]; lia|exact HF'|].
+      intros _. exists (Grp DBrace (macro_def sub2)), out. split; [reflexivity|]. rewrite macro_def_pos_rev, Hm. reflexivity.
+    + cbv zeta.
+      set (inner := rec o (Some d) (Grp d sub)).
+      assert (Hin : Equiv c (rev out ++ Grp d sub :: rest) (rev out ++ Grp d inner :: rest)).
+      { apply Eq_nest; [apply sctx_of_not_macro|rewrite macro_def_pos_rev; exact Hm|apply (Hx o (Some d))]. }
+      eapply Eq_trans; [exact Hin|]. clearbody inner. clear Hin.
+      set (g := if o_remove_nested_parens o && negb (call_like (hd_error out)) then collapse_parens (Grp d inner) else Grp d inner).
+      assert (Hg : Equiv c (rev out ++ Grp d inner :: rest) (rev out ++ g :: rest)).
+      { subst g. destruct (o_remove_nested_parens o && negb (call_like (hd_error out))) eqn:Hc; [|apply Eq_refl].
+        apply andb_true_iff in Hc. destruct Hc as [_ Hc]. apply negb_true_iff in Hc.
+        apply collapse_equiv. rewrite lasto_rev. exact Hc. }
+      eapply Eq_trans; [exact Hg|]. clearbody g. clear Hg.
+      assert (Hdef : Equiv c (rev out ++ g :: rest) (norm_loop rec o ctx (g :: out) false rest)).
+      { rewrite <- rev_cons_app. apply IH; [cbn [length]; lia|exact HF'|apply Hnoskip]. }
+      assert (Hrest : Equiv c (rev out ++ g :: rest)
+                (if is_tok_o (hd_error out) s_bang && match out with _ :: y :: _ => is_ident y | _ => false end
+                 then norm_loop rec o ctx (match g with Grp _ its => Grp DParen its | Tok _ => g end :: out) true rest
+                 else norm_loop rec o ctx (g :: out) false rest)).
+      { destruct (is_tok_o (hd_error out) s_bang && match out with _ :: y :: _ => is_ident y | _ => false end) eqn:Hmc; [|exact Hdef].
+        assert (Hpos : macro_def_pos (rev out) || macro_call_pos (rev out) = true).
+        { rewrite macro_call_pos_rev, Hmc. apply orb_true_r. }
+        eapply Eq_trans with (rev out ++ match g with Grp _ its => Grp DParen its | Tok _ => g end :: rest).
+        - destruct g as [t|d1 its1]; [apply Eq_refl|]. apply Eq_step. apply S_macro_delim. exact Hpos.
+        - rewrite <- rev_cons_app. apply IH; [cbn [length]; lia|exact HF'|].
+          intros _. eexists. exists out. split; [reflexivity|exact Hpos]. }
+      destruct g as [t|[| |] [|[t|d3 s3] [|z its]]]; try exact Hrest.
+      destruct (starts_with_digit t && negb (call_like (hd_error out))) eqn:Hl; [|exact Hrest].
+      apply andb_true_iff in Hl. destruct Hl as [Hl1 Hl2]. apply negb_true_iff in Hl2.
+      eapply Eq_step_then; [apply S_literal_parens; [rewrite lasto_rev; exact Hl2|exact Hl1]|].
+      rewrite <- rev_cons_app. apply IH; [cbn [length]; lia|exact HF'|apply Hnoskip].
+Qed.
+End LoopE.
+
+Lemma norm_in_deepE x : PdeepE norm_in x.
+Proof.
+  induction x as [s|d its IH] using item_ind'.
+  - split; [intros o ctx; apply Eq_refl|constructor].
+  - assert (H : Forall (PrecE norm_in) its).
+    { clear -IH. induction IH as [|y l [Hy _] _ IHl]; constructor; assumption. }
+    split; [|exact H].
+    intros o ctx. cbn [norm_in contents].
+    apply (norm_loop_equiv norm_in its o ctx [] false IH). intros Hf. discriminate.
+Qed.
+Lemma norm_seq_equiv_lemma o ctx items : Equiv (sctx_of ctx) items (norm_seq o ctx items).
+Proof.
+  unfold norm_seq. apply (norm_loop_equiv norm_in items o ctx [] false).
+  - induction items as [|x r IH]; constructor; [apply norm_in_deepE|exact IH].
+  - intros Hf. discriminate.
+Qed.
+Lemma norm_core_sound_lemma o a b : norm_core_items o a = norm_core_items o b ->
+  Equiv CTop (tree o (significant a)) (tree o (significant b)).
+Proof.
+  unfold norm_core_items. intros H.
+  eapply Eq_trans; [apply (norm_seq_equiv_lemma o None)|]. rewrite H.
+  apply Eq_sym. apply (norm_seq_equiv_lemma o None).
+Qed.
+
+(* the relation is not trivial: equivalent trees have the same essential atoms in the same order *)
+Lemma Step_E c a b : Step c a b -> E a = E b.
+Proof.
+  intros H. destruct H; rewrite ?E_app, ?E_cons, ?E_grp, ?E_app, ?E_cons; autorewrite with ess; try reflexivity.
+  - (* glue *) rewrite (glue_pair_ess _ _ H). rewrite <- !app_assoc. reflexivity.
+Qed.
+Lemma Equiv_E c a b : Equiv c a b -> E a = E b.
+Proof.
+  intros H. induction H as [c a|c a b _ IH|c a b e _ IH1 _ IH2|c a b Hs|c pre d its its' post _ _ _ IH
+                            |c pre d its its' post _ _ _ IH|c pre d1 m d2 body body' post _ _ _ _ IH].
+  - reflexivity.
+  - symmetry. exact IH.
+  - rewrite IH1. exact IH2.
+  - apply (Step_E _ _ _ Hs).
+  - rewrite !E_app, !E_cons, !E_grp, IH. reflexivity.
+  - rewrite !E_app, !E_cons, !E_grp, IH. reflexivity.
+  - rewrite !E_app, !E_cons, !E_grp, IH. reflexivity.
+Qed.
+
 (* END-OF-PART *)
